@@ -134,6 +134,14 @@ class Net:
         self.cons = []    # (name, Cur, limit)
 
 
+class _NT(tuple):
+    """instance of a namedtuple class defined in a site module"""
+    def __new__(cls, fields, values):
+        o = super().__new__(cls, values)
+        o.fields = tuple(fields)
+        return o
+
+
 class _Ret(Exception):
     def __init__(self, v):
         self.v = v
@@ -158,6 +166,56 @@ class Evaluator:
         self.steps = 0
         self.nets = []
         self.repo = None
+        self.consts = {}          # module-level simple assignments, evaluated lazily in the module's own scope
+        self._const_cache = {}
+        self._tree = module_tree
+        for n in module_tree.body:
+            if isinstance(n, ast.Assign) and len(n.targets) == 1 and isinstance(n.targets[0], ast.Name):
+                self.consts[n.targets[0].id] = n.value
+            elif isinstance(n, ast.AnnAssign) and isinstance(n.target, ast.Name) and n.value is not None:
+                self.consts[n.target.id] = n.value
+            elif isinstance(n, ast.ClassDef) and len(n.bases) == 1 and isinstance(n.bases[0], ast.Call) and not n.keywords \
+                    and (getattr(n.bases[0].func, "id", None) == "namedtuple" or getattr(n.bases[0].func, "attr", None) == "namedtuple") \
+                    and all(isinstance(b, ast.Expr) and isinstance(b.value, ast.Constant) or
+                            (isinstance(b, ast.Assign) and len(b.targets) == 1 and getattr(b.targets[0], "id", None) == "__slots__") or isinstance(b, ast.Pass)
+                            for b in n.body):
+                # class P(namedtuple("P", [...])): docstring / __slots__ only  ==  the namedtuple class itself
+                self.consts[n.name] = n.bases[0]
+
+    def link_imports(self, repo):
+        """names imported from sibling modules of the package (`from ._shared import helper, CONST` / `from .x import *`): the helper
+        functions and constants of those modules are evaluated like the module's own (a name defined here wins)"""
+        import posixpath
+        seen = {self.module}
+        work = [(self.module, self._tree)]
+        while work:
+            rel, tree = work.pop()
+            for n in tree.body:
+                if not (isinstance(n, ast.ImportFrom) and n.level and n.level >= 1):
+                    continue
+                base = posixpath.dirname(rel)
+                for _ in range(n.level - 1):
+                    base = posixpath.dirname(base)
+                cand = posixpath.join(base, *(n.module.split(".") if n.module else [])) + ".py"
+                sub = repo.trees.get(cand)
+                if sub is None or "/sites/" not in cand:
+                    continue                      # only sibling site modules are interpreted; the network / model classes stay abstract
+                names = {a.name: (a.asname or a.name) for a in n.names}
+                star = "*" in names
+                for st in sub.body:
+                    if isinstance(st, ast.FunctionDef) and (star or st.name in names):
+                        self.funcs.setdefault(names.get(st.name, st.name), st)
+                    elif isinstance(st, ast.Assign) and len(st.targets) == 1 and isinstance(st.targets[0], ast.Name) and (star or st.targets[0].id in names):
+                        self.consts.setdefault(names.get(st.targets[0].id, st.targets[0].id), st.value)
+                # free names of the imported helpers resolve in their own module: make that module's top level visible as a fallback
+                for st in sub.body:
+                    if isinstance(st, ast.FunctionDef):
+                        self.funcs.setdefault(st.name, st)
+                    elif isinstance(st, ast.Assign) and len(st.targets) == 1 and isinstance(st.targets[0], ast.Name):
+                        self.consts.setdefault(st.targets[0].id, st.value)
+                if cand not in seen:
+                    seen.add(cand)
+                    work.append((cand, sub))
 
     def fail(self, node, why):
         raise AnalysisError(f"{self.module}: site evaluator: {why}: `{src(node, 80)}` (line {getattr(node, 'lineno', '?')})")
@@ -166,9 +224,12 @@ class Evaluator:
     def call_fn(self, fn, args, kwargs, closure):
         env = dict(closure)
         a = fn.args
-        if a.vararg or a.kwarg or a.posonlyargs:
-            self.fail(fn, "*args/**kwargs in a site helper")
+        if a.kwarg or a.posonlyargs:
+            self.fail(fn, "**kwargs / positional-only parameters in a site helper")
         params = [x.arg for x in a.args]
+        if a.vararg:
+            env[a.vararg.arg] = tuple(args[len(params):])
+            args = args[:len(params)]
         for p, d in zip(params[len(params) - len(a.defaults):], a.defaults):
             env[p] = self.ex(d, closure)
         for p, d in zip(a.kwonlyargs, a.kw_defaults):
@@ -185,6 +246,8 @@ class Evaluator:
         for p in params:
             if p not in env:
                 self.fail(fn, f"parameter {p} unbound")
+        if isinstance(fn, ast.Lambda):
+            return self.ex(fn.body, env)
         try:
             self.block(fn.body, env)
         except _Ret as r:
@@ -227,7 +290,7 @@ class Evaluator:
         elif isinstance(s, ast.AugAssign):
             cur = self.ex(ast.copy_location(_load(s.target), s), env)
             rhs = self.ex(s.value, env)
-            if isinstance(cur, Cur):
+            if isinstance(cur, Cur) and not getattr(s, "from_binop", False):
                 v = self.inplace_current(s.op, cur, rhs, s)
             else:
                 v = self.binop(s.op, cur, rhs, s)
@@ -334,6 +397,15 @@ class Evaluator:
                 return env[e.id]
             if e.id in self.funcs:
                 return _Closure(self.funcs[e.id], {})
+            if e.id in self.consts:
+                if e.id not in self._const_cache:
+                    self._const_cache[e.id] = ("pending",)
+                    self._const_cache[e.id] = self.ex(self.consts[e.id], {})
+                elif self._const_cache[e.id] == ("pending",):
+                    self.fail(e, f"module constant {e.id} defined in terms of itself")
+                return self._const_cache[e.id]
+            if e.id == "namedtuple":
+                return ("builtin", "namedtuple")
             if e.id in ("ChargingNetwork", "Current", "get_evse_by_type", "dict", "print", "range", "len", "str", "list", "tuple",
                         "enumerate", "zip", "sorted", "int", "float", "set", "reversed", "abs", "min", "max", "sum"):
                 return ("builtin", e.id)
@@ -417,9 +489,14 @@ class Evaluator:
         if isinstance(e, ast.BinOp):
             return self.binop(e.op, self.ex(e.left, env), self.ex(e.right, env), e)
         if isinstance(e, ast.Attribute):
-            return ("attr", self.ex(e.value, env), e.attr)
+            base = self.ex(e.value, env)
+            if isinstance(base, _NT) and e.attr in base.fields:
+                return base[base.fields.index(e.attr)]
+            return ("attr", base, e.attr)
         if isinstance(e, ast.Call):
             return self.call(e, env)
+        if isinstance(e, ast.Lambda):
+            return _Closure(e, env)
         self.fail(e, f"expression kind {type(e).__name__} outside the subset")
 
     def comp(self, e, env):
@@ -456,10 +533,18 @@ class Evaluator:
         return out
 
     def call(self, e, env):
-        if any(isinstance(a, ast.Starred) for a in e.args) or any(k.arg is None for k in e.keywords):
-            self.fail(e, "star-arguments")
+        if any(k.arg is None for k in e.keywords):
+            self.fail(e, "**-arguments")
         f = self.ex(e.func, env)
-        args = [self.ex(a, env) for a in e.args]
+        args = []
+        for a in e.args:
+            if isinstance(a, ast.Starred):
+                v = self.ex(a.value, env)
+                if not isinstance(v, (list, tuple)):
+                    self.fail(e, "star-argument is not a list / tuple at construction time")
+                args += list(v)
+            else:
+                args.append(self.ex(a, env))
         kw = {k.arg: self.ex(k.value, env) for k in e.keywords}
         if isinstance(f, _Closure):
             return self.call_fn(f.fn, args, kw, f.env)
@@ -467,8 +552,19 @@ class Evaluator:
             n = Net()
             self.nets.append(n)
             return n
+        if isinstance(f, tuple) and f[0] == "ntclass":
+            fields = f[1]
+            b = self.bind(fields, args, kw, e)
+            if set(b) != set(fields):
+                self.fail(e, "namedtuple constructed with missing fields")
+            return _NT(fields, [b[x] for x in fields])
         if isinstance(f, tuple) and f[0] == "builtin":
             nm = f[1]
+            if nm == "namedtuple":
+                if len(args) != 2 or kw:
+                    self.fail(e, "namedtuple(...) form not recognised")
+                fields = args[1].replace(",", " ").split() if isinstance(args[1], str) else list(args[1])
+                return ("ntclass", tuple(fields))
             if nm == "Current":
                 if len(args) != 1 or kw:
                     self.fail(e, "Current(...) form not recognised")
@@ -566,6 +662,7 @@ def evaluate_site(repo, module_suffix, fname, **overrides):
     gebt = repo.fn("get_evse_by_type")
     ev = Evaluator(tree, rel, reg.params[1:], con.params[1:], gebt.params)
     ev.repo = repo
+    ev.link_imports(repo)
     if fname not in ev.funcs:
         raise AnalysisError(f"site factory {fname} not found in {rel}")
     fn = ev.funcs[fname]
